@@ -35,3 +35,6 @@ let arc (toks : string list) : string =
   | _ -> failwith "arc: bad case"
 
 let () = register "arc" arc
+(* arca: same model output; the harness appends the measured allocation, the model requests no field-sized buffer
+   (Proofs/ArcTotal.v arc_body_never_longer_than_data) *)
+let () = register "arca" arc
